@@ -250,8 +250,17 @@ class World:
                     script['calls'].append(['unget', r.choice(got)])
                 elif z < 0.75 and got:
                     script['calls'].append(['setBody', r.choice(got), r.randrange(1000)])
-                else:
+                elif z < 0.9:
                     script['calls'].append(['write', h, r.randrange(1000)])
+                else:
+                    # write_entities: mostly homogeneous, sometimes a wrong-type / multi-state entity somewhere in the list
+                    hs = [r.choice(own) for _ in range(r.choice([1, 2, 3]))] if own else []
+                    if r.random() < 0.5:
+                        cds = self.descr_handles(lambda d: d.is_context_descriptor)
+                        bad = r.choice((other or ['nohandle']) + cds[:1])
+                        hs.insert(r.randrange(len(hs) + 1), bad)
+                    if hs:
+                        script['calls'].append(['writeMany', hs, r.randrange(1000)])
         elif tx == 'C':
             cds = self.descr_handles(lambda d: d.is_context_descriptor)
             chs = sorted(c.Handle for c in self.mdib.context_states.objects)
@@ -475,6 +484,38 @@ class World:
                     self.mutate_state(ent.state, call[2])
                     self.emit(f'write {H(call[1])} {kind_of(ent.state)} {ent.state.StateVersion} {self.sbody(ent.state)} 0', 'ok')
                 mgr.write_entity(ent)
+            elif op == 'writeMany':
+                ents = []
+                for h in call[1]:
+                    try:
+                        e = m.entities.by_handle(h)
+                    except KeyError:
+                        e = None
+                    if e is not None and all(e.handle != x.handle for x in ents):
+                        ents.append(e)
+                if not ents:
+                    return
+                for e in ents:
+                    if not e.is_multi_state:
+                        self.mutate_state(e.state, call[2])
+                # `write_entities` checks all entities before it writes any of them: the model sees either every single
+                # write or one rejected call
+                bad = next((e for e in ents if e.is_multi_state or kind_of(e.state) != mgr_kind(mgr)), None)
+                if bad is not None:
+                    self.emit(f'write {H(bad.handle)} context 0 0 1' if bad.is_multi_state else
+                              f'write {H(bad.handle)} {kind_of(bad.state)} {bad.state.StateVersion} {self.sbody(bad.state)} 0', 'ok')
+                else:
+                    for e in ents:
+                        self.emit(f'write {H(e.handle)} {kind_of(e.state)} {e.state.StateVersion} {self.sbody(e.state)} 0', 'ok')
+                before = {k: id(v.new) for k, v in mgr._state_updates.items()}  # noqa: SLF001
+                try:
+                    mgr.write_entities(ents)
+                except Exception:
+                    after = {k: id(v.new) for k, v in mgr._state_updates.items()}  # noqa: SLF001
+                    if after != before:
+                        info.setdefault('isolation_failures', []).append(
+                            ('rejected-call-changed-transaction', f'write_entities raised but registered {sorted(set(after) - set(before))}'))
+                    raise
         elif tx == 'C':
             if op == 'get':
                 self.emit(f'get {H(call[1])}', 'ok')
@@ -612,6 +653,11 @@ class World:
         for h in list(self.removed_descr):
             if h in now:
                 del self.removed_descr[h]
+
+
+def mgr_kind(mgr):
+    return {'AlertStateTransaction': 'alert', 'MetricStateTransaction': 'metric', 'ComponentStateTransaction': 'component',
+            'RtStateTransaction': 'rt', 'OperationalStateTransaction': 'operational'}.get(type(mgr).__name__)
 
 
 def deep_scribble(obj, depth=0):
